@@ -15,7 +15,7 @@ MANIFEST = {
             "the escape, 10 conversions plain and decorated), up to length 2 / 1 over richer alphabets (length 1: all 45 forms x 5 flags x 3 widths x 3 precisions) "
             "and simulates sequences up to length 12; it checks the machine against its folds and against an independent reader of the text "
             "(unique readability) and prints every behaviour, which the harness feeds to the real parse_format_string_parameters (spec->impl).  "
-            "In the other direction 20000 (400000 thorough) random strings over the full grammar are parsed by the real code and T_C20 requires "
+            "In the other direction 20000 (250000 thorough) random strings over the full grammar are parsed by the real code and T_C20 requires "
             "result = Expect(tokens) with the documented sizes, an error iff a long/long long/long double form occurs (impl->spec).",
     "note": "Trusted: TLC + CommunityModules, the token/text/result projection in harness/src/props/c20.rs (canary-checked; T_C20 re-checks "
             "text = Text(tokens)), FormatString.tla as transcription of the documented grammar and of Datatype::from.",
